@@ -1,39 +1,14 @@
 (* Single entry point of the executable models: request and oracle answers are sx values.
-   The same function is run extracted to OCaml (driver.ml) and inside Coq (vm_compute). *)
-From DippyV Require Import Base.Str Base.Verdict Base.Sx Base.Tree Model.RawScan Model.Walker.
+   The same function is run extracted to OCaml (ocaml/driver.ml) and inside Coq (vm_compute).
+   Each model contributes one line: its Entry module's [entry]. *)
+From DippyV Require Import Base.Str Base.Sx Entry.Common.
+From DippyV Require Entry.WalkerE.
 
-Definition q (name : string) (args : list sx) : sx := L (A (s2l name) :: args).
-Definition sx_ctx (c : ctx) : list sx := [A (fst c); sx_of_bool (snd c)].
-
-Section Orc.
-  Variable orc : oracle.
-  Definition o_simple (c : ctx) (ws : list str) : verdict := verdict_of_sx (orc (q "simple" (sx_ctx c ++ [sx_of_strs ws]))).
-  Definition o_astr (c : ctx) (s : str) : verdict := verdict_of_sx (orc (q "astr" (sx_ctx c ++ [A s]))).
-  Definition o_mredir (cwd tgt : str) : option verdict := opt_of_sx verdict_of_sx (orc (q "mredir" [A cwd; A tgt])).
-  Definition o_cdres (cwd tgt : str) : str := sx_str (orc (q "cdres" [A cwd; A tgt])).
-  Definition o_injrisk (c : ctx) (ws : list str) : bool := sx_bool (orc (q "injrisk" (sx_ctx c ++ [sx_of_strs ws]))).
-
-  Definition the_walk := walk o_simple o_astr o_mredir o_cdres o_injrisk.
-  Definition the_analyze_nodes := analyze_nodes o_simple o_astr o_mredir o_cdres o_injrisk.
-
-  Definition sx_of_raw (r : raw_result) : sx :=
-    match r with
-    | RNone => L [A $"none"]
-    | RComplex => L [A $"complex"]
-    | RSubs l => L [A $"subs"; sx_of_strs l]
-    end.
-
-  Definition run (inp : sx) : sx :=
-    match inp with
-    | L (A cmd :: args) =>
-        let a n := nth n args (L []) in
-        if str_eqb cmd $"walk" then
-          sx_of_verdict (the_walk (sx_str (a 0%nat), sx_bool (a 1%nat)) (tree_of_sx (a 2%nat)))
-        else if str_eqb cmd $"analyze_nodes" then
-          sx_of_verdict (the_analyze_nodes (sx_str (a 0%nat), sx_bool (a 1%nat))
-                           (opt_of_sx (fun x => map tree_of_sx (sx_list x)) (a 2%nat)))
-        else if str_eqb cmd $"scan_raw" then sx_of_raw (scan_raw (sx_str (a 0%nat)))
-        else A $"?unknown-entry"
-    | _ => A $"?malformed-request"
-    end.
-End Orc.
+Definition run (orc : oracle) (inp : sx) : sx :=
+  match inp with
+  | L (A cmd :: args) =>
+      first_some [
+        Entry.WalkerE.entry orc cmd args
+      ]
+  | _ => A $"?malformed-request"
+  end.
